@@ -19,6 +19,7 @@ import (
 	"sigs.k8s.io/controller-runtime/pkg/client"
 	gatewayv1beta1 "sigs.k8s.io/gateway-api/apis/v1beta1"
 
+	"github.com/openkruise/rollouts/api/v1alpha1"
 	"github.com/openkruise/rollouts/api/v1beta1"
 
 	"verif/harness/simapi"
@@ -57,6 +58,10 @@ type Scenario struct {
 	Replicas  int32  `json:"replicas"`
 	Steps     []Step `json:"steps"`
 	RolloutID bool   `json:"rolloutID,omitempty"`
+	// TRCR: traffic is not configured in the Rollout but in a TrafficRouting custom resource (<name>-tr, weight TRWeight)
+	// that the Rollout refers to by annotation; the TrafficRouting controller applies it while the Rollout progresses.
+	TRCR     bool `json:"trafficRoutingCR,omitempty"`
+	TRWeight int  `json:"trWeight,omitempty"`
 	// HPA: the user runs a HorizontalPodAutoscaler (min = max = replicas, so it never scales) on the workload; blue-green
 	// releases park it on a non-existent target and must bring it back.
 	HPA bool `json:"hpa,omitempty"`
@@ -133,6 +138,9 @@ func (s *Scenario) Sig() string {
 	if s.HPA {
 		ev = append(ev, "hpa")
 	}
+	if s.TRCR {
+		ev = append(ev, "trafficrouting-cr")
+	}
 	return fmt.Sprintf("%s/%s/%s/%s/%s", s.Kind, s.Style, s.Provider, shape, strings.Join(ev, ","))
 }
 
@@ -141,6 +149,7 @@ func (s *Scenario) SvcName() string     { return s.Name + "-svc" }
 func (s *Scenario) IngName() string     { return s.Name + "-ing" }
 func (s *Scenario) RouteName() string   { return s.Name + "-route" }
 func (s *Scenario) VSName() string      { return s.Name + "-vs" }
+func (s *Scenario) TRName() string      { return s.Name + "-tr" }
 func (s *Scenario) HasTraffic() bool    { return s.Provider != "none" && s.Provider != "" }
 
 func ios(v string) *intstr.IntOrString {
@@ -171,6 +180,12 @@ func (s *Scenario) BuildRollout() *v1beta1.Rollout {
 	ro.Spec.Strategy = s.BuildStrategy(s.Steps)
 	if s.RollbackInBatch {
 		ro.Annotations = map[string]string{"rollouts.kruise.io/rollback-in-batch": "true"}
+	}
+	if s.TRCR {
+		if ro.Annotations == nil {
+			ro.Annotations = map[string]string{}
+		}
+		ro.Annotations["rollouts.kruise.io/trafficrouting"] = s.TRName()
 	}
 	return ro
 }
@@ -204,9 +219,13 @@ func (s *Scenario) BuildSteps(steps []Step) []v1beta1.CanaryStep {
 }
 
 func (s *Scenario) trafficRefs() []v1beta1.TrafficRoutingRef {
-	if !s.HasTraffic() {
+	if !s.HasTraffic() || s.TRCR {
 		return nil
 	}
+	return s.trafficRefsRaw()
+}
+
+func (s *Scenario) trafficRefsRaw() []v1beta1.TrafficRoutingRef {
 	ref := v1beta1.TrafficRoutingRef{Service: s.SvcName(), GracePeriodSeconds: s.Grace}
 	for _, p := range strings.Split(s.Provider, "+") {
 		switch {
@@ -327,6 +346,27 @@ func (s *Scenario) Install(w *World) error {
 			if err := user.Create(c, vs); err != nil {
 				return err
 			}
+		}
+	}
+	if s.TRCR {
+		tr := &v1alpha1.TrafficRouting{ObjectMeta: metav1.ObjectMeta{Name: s.TRName(), Namespace: s.NS}}
+		for _, ref := range s.trafficRefsRaw() {
+			a := v1alpha1.TrafficRoutingRef{Service: ref.Service, GracePeriodSeconds: ref.GracePeriodSeconds}
+			if ref.Ingress != nil {
+				a.Ingress = &v1alpha1.IngressTrafficRouting{Name: ref.Ingress.Name, ClassType: ref.Ingress.ClassType}
+			}
+			if ref.Gateway != nil {
+				a.Gateway = &v1alpha1.GatewayTrafficRouting{HTTPRouteName: ref.Gateway.HTTPRouteName}
+			}
+			for _, cr := range ref.CustomNetworkRefs {
+				a.CustomNetworkRefs = append(a.CustomNetworkRefs, v1alpha1.CustomNetworkRef{APIVersion: cr.APIVersion, Kind: cr.Kind, Name: cr.Name})
+			}
+			tr.Spec.ObjectRef = append(tr.Spec.ObjectRef, a)
+		}
+		w := int32(s.TRWeight)
+		tr.Spec.Strategy.Weight = &w
+		if err := user.Create(c, tr); err != nil {
+			return err
 		}
 	}
 	return user.Create(c, s.BuildRollout())
